@@ -197,6 +197,22 @@ func (t *terminal) handleCommand(r escapeReader) bool {
 		return false
 	}
 
+	// ESC I... F: intermediate bytes (0x20-0x2F) followed by a final byte
+	// (charset designation, DECALN, S7C1T, ...). None of these is interpreted;
+	// consume the sequence whole so that no byte of it is drawn as text.
+	if b >= 0x20 && b <= 0x2f {
+		for b >= 0x20 && b <= 0x2f {
+			b, err = r.ReadByte()
+			if err != nil {
+				if err != io.EOF {
+					debugPrintln(debugErrors, "ERR ReadByte4:", err)
+				}
+				return false
+			}
+		}
+		return true
+	}
+
 	// short commands
 	switch b {
 
@@ -217,23 +233,6 @@ func (t *terminal) handleCommand(r escapeReader) bool {
 
 	case ']': // OSC Operating System Commands
 		return t.handleCmdOSC(r)
-
-	case '(': // G0
-		fallthrough
-	case ')': // G1
-		fallthrough
-	case '*': // G2
-		fallthrough
-	case '+': // G3
-		C, err := r.ReadByte()
-		if err != nil {
-			if err != io.EOF {
-				debugPrintln(debugErrors, "ERR ReadByte4:", err)
-			}
-			return false
-		}
-		_ = C
-		return true
 
 	case '=': // Application Keypad
 		t.setViewFlag(VFAppKeypad, true)
@@ -326,6 +325,35 @@ func (t *terminal) handleCmdCSI(r escapeReader) bool {
 	}
 
 	params := paramStore[:paramCount]
+
+	// A well-formed sequence may go on with further parameter bytes
+	// (0x30-0x3F, e.g. ':' sub-parameters or a late private marker) and with
+	// intermediate bytes (0x20-0x2F) before its final byte. None of those forms
+	// is interpreted: consume the sequence whole and ignore it.
+	ignored := false
+	for b >= 0x30 && b <= 0x3f {
+		ignored = true
+		b, err = r.ReadByte()
+		if err != nil {
+			if err != io.EOF {
+				debugPrintln(debugErrors, "ERR ReadByte7:", err)
+			}
+			return true // nothing is left to interpret
+		}
+	}
+	for b >= 0x20 && b <= 0x2f {
+		ignored = true
+		b, err = r.ReadByte()
+		if err != nil {
+			if err != io.EOF {
+				debugPrintln(debugErrors, "ERR ReadByte7:", err)
+			}
+			return true // nothing is left to interpret
+		}
+	}
+	if ignored {
+		return true
+	}
 
 	if prefix == 0 {
 		switch b {
